@@ -297,6 +297,61 @@ func (cx *Ctx) checkPoolEscape(r *Report) {
 		}
 		r.Check(bad == "", "R-POOL", w.FuncKey(fn), w.FnPos(fn), "nothing derived from the pooled object is returned", w.FuncKey(fn)+" "+bad+": a concurrent or later request overwrites the data")
 	}
+	// a pooled object must be emptied on every path before it is reused: Reset() right after Get, or right before every Put
+	for _, fn := range w.Funcs {
+		for _, c := range callsIn(fn) {
+			if calleeName(c) != "(*sync.Pool).Get" {
+				continue
+			}
+			n++
+			okReset := false
+			blk := c.Block()
+			after := false
+			for _, in := range blk.Instrs {
+				if in == ssa.Instruction(c.(*ssa.Call)) {
+					after = true
+					continue
+				}
+				if !after {
+					continue
+				}
+				if c2, ok := in.(ssa.CallInstruction); ok {
+					nm := calleeName(c2)
+					if strings.HasSuffix(nm, ").Reset") || strings.HasSuffix(nm, ".Reset") || strings.HasSuffix(nm, ").Truncate") {
+						okReset = true
+					}
+					if !okReset && nm != "(*sync.Pool).Get" {
+						break
+					}
+				}
+			}
+			if !okReset {
+				// or every Put in the function is immediately preceded by a Reset
+				allPut := true
+				nPut := 0
+				for _, p := range callsIn(fn) {
+					if calleeName(p) != "(*sync.Pool).Put" {
+						continue
+					}
+					nPut++
+					prevReset := false
+					for _, in := range p.Block().Instrs {
+						if in == ssa.Instruction(p.(ssa.Instruction)) {
+							break
+						}
+						if c2, ok := in.(ssa.CallInstruction); ok {
+							prevReset = strings.HasSuffix(calleeName(c2), ").Reset") || strings.HasSuffix(calleeName(c2), ").Truncate")
+						}
+					}
+					if !prevReset {
+						allPut = false
+					}
+				}
+				okReset = allPut && nPut > 0
+			}
+			r.Check(okReset, "R-POOL", w.FuncKey(fn)+":reset", w.InstrPos(c), "the pooled object is reset before reuse", "an object taken from a sync.Pool is not reset right after Get (nor before every Put): what a previous request left in it (e.g. after a failed template execution) becomes part of this request's reply")
+		}
+	}
 	if n == 0 {
 		r.Ok("R-POOL", "#pools", "", "no sync.Pool in the module")
 	}
